@@ -25,6 +25,9 @@ pub enum Ending {
     Exit,
     /// the controller closes its sending half after `after_bytes` bytes (possibly inside a line)
     HalfClose { after_bytes: usize },
+    /// like Stop, but the controller never sends the newline behind its final `cmd:stop`: it closes its sending half
+    /// instead. The end of the stream ends the line
+    StopAtEof,
     /// the guest ends in an instruction that fails: run() returns the error and the shipped `main` unwraps it -
     /// the Cpu is dropped while the main thread unwinds
     Fault,
@@ -175,6 +178,9 @@ fn stream_bytes(scn: &Scn) -> Vec<u8> {
     if let Ending::HalfClose { after_bytes } = scn.ending {
         bytes.truncate(after_bytes.min(bytes.len()));
     }
+    if scn.ending == Ending::StopAtEof {
+        bytes.pop();
+    }
     bytes
 }
 
@@ -186,7 +192,7 @@ fn body(scn: &Scn, g: &Guest, slot: &Arc<Mutex<Option<ExecResult>>>) {
     let mut ctl_w = ctl.try_clone().unwrap();
     let mut ctl_r = ctl;
     let chunks = scn.chunks.clone();
-    let half = matches!(scn.ending, Ending::HalfClose { .. });
+    let half = matches!(scn.ending, Ending::HalfClose { .. } | Ending::StopAtEof);
     let wbytes = bytes.clone();
     let wpause = scn.writer_pause;
     let writer = shuttle::thread::spawn(move || {
@@ -395,9 +401,10 @@ fn body(scn: &Scn, g: &Guest, slot: &Arc<Mutex<Option<ExecResult>>>) {
             }
         }
     }
-    let stop_sent = complete.iter().any(|l| l == "cmd:stop");
+    // the stop line got out: as a complete line, or (StopAtEof) as the final fragment that the end of the stream terminates
+    let stop_sent = complete.iter().any(|l| l == "cmd:stop") || (scn.ending == Ending::StopAtEof && frag.as_deref() == Some("cmd:stop") && written >= bytes.len());
     match (&scn.ending, &outcome) {
-        (Ending::Stop, Outcome::Ok) if stop_sent && !exited => {
+        (Ending::Stop | Ending::StopAtEof, Outcome::Ok) if stop_sent && !exited => {
             // everything before the stop must be in effect, exactly
             let full = states[complete.len()].clone();
             if !matches_state(&full) {
@@ -406,7 +413,7 @@ fn body(scn: &Scn, g: &Guest, slot: &Arc<Mutex<Option<ExecResult>>>) {
             }
             bump(&mut stats, "probe.ended_by_stop_all_lines_applied");
         }
-        (Ending::Stop, Outcome::Abort(_)) if stop_sent => {
+        (Ending::Stop | Ending::StopAtEof, Outcome::Abort(_)) if stop_sent => {
             fail!(Failure::new("c18.net.stop", format!("cmd:stop was written ({} complete lines) but run() never returned within {} iterations", complete.len(), scn.step_cap)));
         }
         (Ending::Fault, Outcome::Err(_)) | (_, Outcome::Ok) | (_, Outcome::Abort(_)) => {
@@ -621,7 +628,8 @@ impl Property for C18N {
 
     fn generate(rng: &mut Rng, tier: Tier, _i: u64) -> Scn {
         let ending = match rng.below(11) {
-            0..=5 => Ending::Stop,
+            0..=4 => Ending::Stop,
+            5 => Ending::StopAtEof,
             6 | 7 => Ending::Exit,
             8 | 9 => Ending::HalfClose { after_bytes: 0 },
             _ => Ending::Fault,
@@ -647,7 +655,7 @@ impl Property for C18N {
                 _ => blocks.push(Block::Delay(rng.range(1, 6) as u16)),
             }
         }
-        if ending == Ending::Stop {
+        if matches!(ending, Ending::Stop | Ending::StopAtEof) {
             blocks.push(Block::Raw(vec![0x40, 0xfe])); // BRA . : only cmd:stop ends the run
         }
         if ending == Ending::Fault {
@@ -659,6 +667,8 @@ impl Property for C18N {
         let mut lines = Vec::new();
         let mut seq = 0u8;
         let malformed = ["cmd:stop:1", "cmd", "cmd:pause:x", "u8:zz:1", "u8:fffe20", "", "foo:1:2", "ioport:1", "cmd:halt", "u8:fffe20:100", "\u{3042}\u{3042}:\u{e9}", "cmd:stop\r", "cmd:pause\r", "u8:fffe20:7f\r", "\r",
+            // NUL bytes are bytes like any other: a field that ends in one is not a number, a verb that ends in one is unknown
+            "u8:fffe20:7e\0", "u8:fffe20:7e\0\0", "cmd:stop\0", "cmd:pause\0", "\0", "u8:fffe20\0:7e", "cmd\0:stop",
             // not UTF-8 on the wire (see `wire`)
             "\u{e0ff}", "u8:fffe20:7\u{e0ff}", "cmd:stop\u{e080}", "x\u{e0c3}", "\u{e0c3}\u{e0c3}:1:2", "u8:\u{e080}fffe20:7e", "cmd\u{e0ff}:pause"];
         let mut started = !wait_start;
@@ -699,7 +709,7 @@ impl Property for C18N {
             }
         }
         match ending {
-            Ending::Stop => lines.push("cmd:stop".into()),
+            Ending::Stop | Ending::StopAtEof => lines.push("cmd:stop".into()),
             Ending::Exit | Ending::HalfClose { .. } | Ending::Fault => {
                 let _ = started;
                 lines.push("cmd:start".into());
@@ -777,7 +787,7 @@ impl Property for C18N {
             }
         }
         match scn.ending {
-            Ending::Stop => {
+            Ending::Stop | Ending::StopAtEof => {
                 if stop_idx != Some(scn.lines.len() - 1) {
                     return Verdict::Invalid("Stop scenarios end with exactly one cmd:stop".into());
                 }
@@ -881,7 +891,7 @@ impl Property for C18N {
         }
         // fewer guest blocks (keep a trailing spin)
         let nb = scn.guest.blocks.len();
-        let keep_last = matches!(scn.ending, Ending::Stop) as usize;
+        let keep_last = matches!(scn.ending, Ending::Stop | Ending::StopAtEof) as usize;
         if nb > keep_last {
             for i in 0..nb - keep_last {
                 let mut b = scn.guest.blocks.clone();
